@@ -107,6 +107,52 @@ def gen_grammar(rng):
     return {"text": "\n".join(lines) + "\n", "rules": rules, "terms": {t[0]: t[2] for t in terms}, "ignore": "[ ]+" if ignore else None}
 
 
+@lru_cache(maxsize=None)
+def term_samples(nm):
+    """a few strings matching the terminal nm (longer, hand-picked ones first)"""
+    pat = {t[0]: t[2] for t in TERMS}[nm]
+    pool = list(EXTRA.get(nm, [])) + ["".join(x) for L in (1, 2, 3) for x in itertools.product(ALPHA, repeat=L)]
+    out = []
+    for c in pool:
+        if re.fullmatch(pat, c):
+            out.append(c)
+            if len(out) >= 4:
+                break
+    return out
+
+
+def sample_sentences(G, rng, k):
+    """strings of the language: random derivations of the rule expressions, every terminal replaced by one of its samples"""
+    rules = G["rules"]
+
+    def expand(e, depth):
+        kind = e[0]
+        if kind == "t":
+            ss = term_samples(e[1])
+            return rng.choice(ss) if ss else None
+        if kind == "n":
+            return expand(rules[e[1]], depth + 1)
+        if kind == "seq":
+            parts = [expand(x, depth + 1) for x in e[1]]
+            return None if any(p is None for p in parts) else "".join(parts)
+        if kind == "alt":
+            return expand(rng.choice(e[1]), depth + 1)
+        if kind == "opt":
+            return "" if rng.random() < 0.5 else expand(e[1], depth + 1)
+        reps = rng.randint(0 if kind == "star" else 1, 2 if depth < 3 else 1)
+        parts = [expand(e[1], depth + 1) for _ in range(reps)]
+        return None if any(p is None for p in parts) else "".join(parts)
+
+    out = []
+    for _ in range(4 * k):
+        s_ = expand(rules[0], 0)
+        if s_ is not None and len(s_) <= 14 and s_ not in out:
+            out.append(s_)
+        if len(out) >= k:
+            break
+    return out
+
+
 def accepts(G, s):
     """substitution semantics: a terminal sequence derivable in the rule grammar, each terminal replaced by a
     string matching its pattern, optionally preceded by one match of the ignored terminal"""
@@ -185,7 +231,7 @@ def run(ctx):
         ctx.prove("props/C19.v")
     else:
         ctx.obligation("coq-build(C19)", False, out[-3000:])
-    n = 25 if quick else 250
+    n = 40 if quick else 300
     gs = [gen_grammar(ctx.rng) for _ in range(n)]
     jobs, plan = [], []
     for k, G in enumerate(gs):
@@ -196,6 +242,10 @@ def run(ctx):
         cands = ["".join(x) for L in range(0, 5) for x in itertools.product(chars, repeat=L)]
         if len(cands) > 160:
             cands = cands[:60] + ctx.rng.sample(cands[60:], 100)
+        for snt in sample_sentences(G, ctx.rng, 8):   # sentences of the language and one-character corruptions of them
+            for c2 in (snt, snt[:-1], snt[1:], snt + snt[-1:] if snt else "x"):
+                if c2 not in cands:
+                    cands.append(c2)
         for nm in G["terms"]:   # longer candidates that reach the interesting states of some terminals
             for e in EXTRA.get(nm, []):
                 if e not in cands:
